@@ -57,6 +57,14 @@ def generic_tasks(docs_by_universe, limit_atoms, r, maxtriples):
         if len(trip) > maxtriples:
             r.shuffle(trip)
             trip = trip[:maxtriples]
+        tasks += triple_tasks(u, trip)
+    return tasks
+
+
+def triple_tasks(u, trip):
+    """generic merge events for (base, local, remote) documents, the law shapes flagged"""
+    tasks = []
+    if True:
         for k, (b, l, rr) in enumerate(trip):
             opts = {"generic": True, "with_diffs": True}
             law = None
@@ -117,6 +125,8 @@ CONSTANT LineSeps <- PyLineSeps
 CONSTANT MaxLen = %d
 CONSTANT EMIT = %s
 CONSTANT Kind = "%s"
+CONSTANT NIns = %d
+CONSTANT NPatch = "%s"
 INVARIANT DiffsCorrect
 INVARIANT ChunkShapes
 INVARIANT NoErrorArm
@@ -132,43 +142,57 @@ CHECK_DEADLOCK FALSE
 """
 
 
-def merge_algo(chk, maxlen, emit, kind="lists"):
+def merge_algo(chk, maxlen, emit, kind="lists", nins=3, npatch="all"):
     """Design level: TLC checks the laws on the TLA+ transcription of the list merge (MergeAlgo.tla) for every
     triple of the universe; with emit the transcription is compared with nbdime's decisions (model drift)."""
     import json
     from . import tlc
     from .encode import dec, enc, enc_diff
-    r = tlc.run("MergeAlgo", ALGO_CFG % (maxlen, "TRUE" if emit else "FALSE", kind), workers=1 if emit else common.NCPU,
+    r = tlc.run("MergeAlgo", ALGO_CFG % (maxlen, "TRUE" if emit else "FALSE", kind, nins, npatch), workers=1 if emit else common.NCPU,
                 timeout=3000, name="MergeAlgo-%s-%d" % (kind, maxlen), xmx="8g")
     if r.invariant_violated or r.error:
         raise tlc.TLCError("MergeAlgo: %s\n%s" % (r.error, "\n".join(l for l in r.out.splitlines() if not l.startswith('"'))[-2500:]))
-    chk.add_model(r, "MergeAlgo %s MaxLen=%d (all triples over 3 atoms)" % (kind, maxlen))
+    chk.add_model(r, "MergeAlgo %s MaxLen=%d (%s)" % (kind, maxlen, "every pair of well-formed diffs of every base, NIns=%d NPatch=%s"
+                                                   % (nins, npatch) if kind == "nested" else "all triples over 3 atoms"))
     if not emit:
-        return
-    from nbdime.merging.generic import decide_merge
+        return []
+    from nbdime.merging.generic import decide_merge, decide_merge_with_diff
     from nbdime.merging.decisions import apply_decisions
+    from nbdime.diff_utils import to_diffentry_dicts
+    from .encode import dec_diff, enc_path
     n = drift = 0
     first = None
+    docs = {}
+
+    def lst(x):
+        return x if isinstance(x, list) else []
     for m in r.json_lines("MERGE"):
         b, l, rr = dec(m["base"]), dec(m["local"]), dec(m["remote"])
         n += 1
+        docs.setdefault(json.dumps([b, l, rr], sort_keys=True), (b, l, rr))
         try:
-            D = decide_merge(b, l, rr)
+            if kind == "nested":
+                D = decide_merge_with_diff(b, l, rr, to_diffentry_dicts(dec_diff(lst(m["ld"]))),
+                                           to_diffentry_dicts(dec_diff(lst(m["rd"]))))
+            else:
+                D = decide_merge(b, l, rr)
             mm = apply_decisions(b, D)
-            got = [{"action": d.action, "conflict": d.conflict, "local_diff": enc_diff(d.local_diff or []),
-                    "local_null": d.local_diff is None, "remote_diff": enc_diff(d.remote_diff or [])} for d in D]
-            gm = enc(list(mm) if kind == "lists" else dict(mm))
+            got = [{"path": enc_path(d.common_path), "action": d.action, "conflict": d.conflict,
+                    "local_diff": enc_diff(d.local_diff or []), "local_null": d.local_diff is None,
+                    "remote_diff": enc_diff(d.remote_diff or [])} for d in D]
+            gm = enc(dict(mm) if kind == "objects" else list(mm))
         except Exception as e:  # noqa
-            got, gm = "raised %s" % type(e).__name__, None
-        exp = [{"action": d["action"], "conflict": d["conflict"],
-                "local_diff": d["local_diff"] if isinstance(d["local_diff"], list) else [], "local_null": d["local_null"],
-                "remote_diff": d["remote_diff"] if isinstance(d["remote_diff"], list) else []}
-               for d in (m["D"] if isinstance(m["D"], list) else [])]
+            got, gm = "raised %s: %s" % (type(e).__name__, str(e)[:80]), None
+        exp = [{"path": lst(d["common_path"]), "action": d["action"], "conflict": d["conflict"],
+                "local_diff": lst(d["local_diff"]), "local_null": d["local_null"],
+                "remote_diff": lst(d["remote_diff"])}
+               for d in lst(m["D"])]
         if json.dumps(got, sort_keys=True) != json.dumps(exp, sort_keys=True) or gm != enc(dec(m["merged"])):
             drift += 1
-            first = first or {"base": b, "local": l, "remote": rr}
-    chk.notes.setdefault("MergeAlgo_vs_nbdime", {})[kind] = {"triples_compared": n, "model_drift": drift, "first_drift": first}
+            first = first or {"base": b, "local": l, "remote": rr, "ld": m.get("ld"), "rd": m.get("rd"), "nbdime": got, "model": exp}
+    chk.notes.setdefault("MergeAlgo_vs_nbdime", {})["%s-%d" % (kind, maxlen)] = {"triples_compared": n, "model_drift": drift, "first_drift": first}
     chk.count(("MergeAlgo", kind, maxlen), nontrivial=False, n=n)
+    return list(docs.values())
 
 
 def run():
@@ -177,14 +201,20 @@ def run():
     r = common.rng("c05")
     merge_algo(chk, 2, True)
     merge_algo(chk, 1, True, kind="objects")
-    if not chk.quick:
+    if chk.quick:
+        ndocs = merge_algo(chk, 1, True, kind="nested", nins=2, npatch="all")
+    else:
         merge_algo(chk, 3, False)
+        ndocs = merge_algo(chk, 1, True, kind="nested", nins=3, npatch="all")
+        merge_algo(chk, 2, False, kind="nested", nins=3, npatch="few")
+    r.shuffle(ndocs)
     if chk.quick:
         pairs = corp.pairs(n_enum=220, n_random=60, salt="c05")
         triples = corp.triples(n_enum=360, n_random=100, salt="c05s")
         models = run_models("quick", chk, universes=[("lists", 2), ("objects", 2), ("strings", 1)])
         gtasks = generic_tasks({u: m[0] for u, m in models.items()}, True, r, 2500)
         gtasks += generic_strategy_law_tasks({u: m[0] for u, m in models.items()}, r, 60)
+        gtasks += triple_tasks("algo-nested", ndocs[:700])
         ntasks = law_tasks(pairs, r, 2) + sym_tasks(triples)
     else:
         pairs = corp.pairs(n_enum=2500, n_random=1500, salt="c05")
@@ -192,6 +222,7 @@ def run():
         models = run_models("thorough", chk, universes=[("lists", 2), ("objects", 2), ("strings", 2), ("nested", 1)])
         gtasks = generic_tasks({u: m[0] for u, m in models.items()}, False, r, 70000)
         gtasks += generic_strategy_law_tasks({u: m[0] for u, m in models.items()}, r, 1500)
+        gtasks += triple_tasks("algo-nested", ndocs)
         ntasks = law_tasks(pairs, r, 4) + sym_tasks(triples)
     events = mergefam.generate(ntasks + gtasks)
     for tid, names in events.meta:
